@@ -938,6 +938,10 @@ func (this *encodingTask) encode(res *encodingTaskResult) {
 	obs.Close()
 	written := obs.Written()
 
+	// The entropy coder may have expanded the block beyond the capacity of the
+	// buffer, in which case the stream has moved its content to a new array
+	data = bufStream.Bytes()
+
 	if len(this.listeners) > 0 {
 		// Notify after entropy
 		evt := kanzi.NewEvent(kanzi.EVT_AFTER_ENTROPY, int(this.currentBlockID),
